@@ -214,7 +214,7 @@ package gkvlite
 //@   inline
 
 //@ func (*Store).scanBackwardsForMagicEnd
-//@   props C03 C08 C07 C09 C19
+//@   props C03 C08 C07 C09 C19 C02
 //@   requires [C05,C18] nolocks: locks == emptyLocks()
 //@   from: C03 statement (most recent complete root); C08 (terminates); C07 sentence 1
 //@   requires s != nil && s.file != nil && len(rootsEnd) == 24 && arr(rootsEnd) != arr(MagicEnd) && arr(rootsEnd) != arr(MagicBeg)
@@ -226,6 +226,8 @@ package gkvlite
 //@   ensures [C09] never-grows: s.size <= max(old(s.size), 0)
 //@   ensures [C03,C08] not-found: result != nil && io.fails == old(io.fails) ==> !defaultToEmpty && forall p :: p <= old(s.size) && p > 44 ==> !magicEndAt(fbytes[s.file], p)
 //@   ensures [C19] reads-only-trailers: true
+//@   ensures [C19] one-read-per-position-tried: result == nil && s.size > 0 ==> io.reads == old(io.reads) + (old(s.size) - s.size) + 1
+//@   loop 0 invariant [C19] one-read-per-position-so-far: io.reads == old(io.reads) + (old(s.size) - s.size)
 //@   loop 0 modifies s.size, content(rootsEnd), ghost io.fails, ghost io.reads, ghost io.valbytes, ghost src
 //@   loop 0 invariant s.size <= old(s.size) && io.fails == old(io.fails)
 //@   loop 0 invariant forall p :: s.size < p && p <= old(s.size) && p > 44 ==> !magicEndAt(fbytes[s.file], p)
@@ -238,17 +240,30 @@ package gkvlite
 //@   ensures [C07] no-error: result2 == nil
 //@   ensures [C14,C03] layout: result0 == s64(be64(rootsEnd, 0)) && result1 == be32(rootsEnd, 8)
 
+//@ extern encoding/json.Unmarshal(data, v) (err)
+//@   from: A8: decoding the JSON text of a root record into the collection map. Whether the text is acceptable is an uninterpreted predicate of the mirrored file bytes (jsonOKAt); on success the map holds, per name, a new usable Collection (Collection.UnmarshalJSON ran for it: private lock, a root version with count 1 over a persisted root location). The allocator effects of those calls are abstracted (A13).
+//@   requires v != nil && deref(v) != nil && src.file[arr(data)] != 0
+//@   modifies mapcontent(deref(v)), new Collection.name, new Collection.store, new Collection.compare, new Collection.rootLock, new Collection.root, new Collection.AppData, new rootNodeLoc.refs, new rootNodeLoc.root, new rootNodeLoc.next, new rootNodeLoc.superseded, new rootNodeLoc.chainedCollection, new rootNodeLoc.chainedRootNodeLoc, new nodeLoc.loc, new nodeLoc.node, new nodeLoc.next, new ploc.Offset, new ploc.Length, new map.ptr, new map.dom, new cell.Int, new mem.byte
+//@   ensures [C03] accepts-iff-well-formed: (err == nil) == jsonOKAt(fbytes[src.file[arr(data)]], src.off[arr(data)] + off(data), len(data))
+//@   ensures err == nil ==> (forall k :: has(deref(v), k) ==> deref(v)[k] != nil && fresh(deref(v)[k]) && deref(v)[k].rootLock != nil && fresh(deref(v)[k].rootLock) && deref(v)[k].root != nil && fresh(deref(v)[k].root) && deref(v)[k].root.refs == 1 && deref(v)[k].root.root != nil && deref(v)[k].root.next == nil && deref(v)[k].root.chainedCollection == nil && deref(v)[k].root.chainedRootNodeLoc == nil && deref(v)[k].store == nil && deref(v)[k].compare == nil)
+//@   ensures err == nil ==> forall j, k {deref(v)[j], deref(v)[k]} :: has(deref(v), j) && has(deref(v), k) && j != k ==> deref(v)[j] != deref(v)[k]
+
 //@ func (*Store).validateAndSetCollections
-//@   props C03 C02 C08 C17 C19 C12
+//@   props C03 C02 C08 C17 C19 C12 C07
 //@   requires [C05,C18] nolocks: locks == emptyLocks()
-//@   trusted
+//@   from: C14/C03 (a root record is accepted iff version, recorded length and JSON are right), C17 ("KeyCompareForCollection" is consulted on every load path), C19 (installing the collections reads nothing from the file)
 //@   requires s != nil && len(data) >= 20 && src.file[arr(data)] != 0
 //@   requires mirrored: agree(content(data), fbytes[src.file[arr(data)]], src.off[arr(data)] + off(data), off(data), len(data))
-//@   modifies s.coll
+//@   modifies s.coll, new Collection.name, new Collection.store, new Collection.compare, new Collection.rootLock, new Collection.root, new Collection.AppData, new rootNodeLoc.refs, new rootNodeLoc.root, new rootNodeLoc.next, new rootNodeLoc.superseded, new rootNodeLoc.chainedCollection, new rootNodeLoc.chainedRootNodeLoc, new nodeLoc.loc, new nodeLoc.node, new nodeLoc.next, new ploc.Offset, new ploc.Length, new map.ptr, new map.dom, new cell.Int, new mem.byte
 //@   ensures [C03] accept: result == nil ==> fbe32(fbytes[src.file[arr(data)]], src.off[arr(data)] + off(data) + 12) == 4 && fbe32(fbytes[src.file[arr(data)]], src.off[arr(data)] + off(data) + 16) == length && jsonOKAt(fbytes[src.file[arr(data)]], src.off[arr(data)] + off(data) + 20, len(data) - 20)
 //@   ensures [C03] reject: result != nil ==> !(fbe32(fbytes[src.file[arr(data)]], src.off[arr(data)] + off(data) + 12) == 4 && fbe32(fbytes[src.file[arr(data)]], src.off[arr(data)] + off(data) + 16) == length && jsonOKAt(fbytes[src.file[arr(data)]], src.off[arr(data)] + off(data) + 20, len(data) - 20))
 //@   ensures result != nil ==> s.coll == old(s.coll)
 //@   ensures result == nil ==> s.coll != nil
+//@   ensures [C17,C12] collections-installed: result == nil ==> deref(s.coll) != nil && (forall k :: has(deref(s.coll), k) ==> deref(s.coll)[k] != nil && deref(s.coll)[k].store == s && deref(s.coll)[k].compare == ((s.callbacks.KeyCompareForCollection != nil && kcfc(s.callbacks.KeyCompareForCollection, k) != nil) ? kcfc(s.callbacks.KeyCompareForCollection, k) : funcref("bytes.Compare")) && deref(s.coll)[k].rootLock != nil && deref(s.coll)[k].root != nil && deref(s.coll)[k].root.refs == 1)
+//@   loop 0 modifies Collection.name, Collection.store, Collection.compare
+//@   loop 0 invariant older-collections-untouched: forall c: *Collection {c.name} {c.store} {c.compare} :: !fresh(c) ==> c.name == old(c.name) && c.store == old(c.store) && c.compare == old(c.compare)
+//@   loop 0 invariant [C17] installed-so-far: forall k :: seen(k) ==> has(m, k) && m[k].store == s && m[k].compare == ((s.callbacks.KeyCompareForCollection != nil && kcfc(s.callbacks.KeyCompareForCollection, k) != nil) ? kcfc(s.callbacks.KeyCompareForCollection, k) : funcref("bytes.Compare"))
+//@   loop 0 invariant map-stays: forall k :: has(m, k) ==> m[k] != nil && fresh(m[k]) && m[k].rootLock != nil && m[k].root != nil && m[k].root.refs == 1 && (!seen(k) ==> m[k].compare == nil)
 
 //@ func (*Store).checkAndReadRoots
 //@   props C03 C02 C08 C07 C09 C19
@@ -261,6 +276,7 @@ package gkvlite
 //@   ensures [C03,C08] accept: result1 == nil && result0 ==> s.size > 44 && rootFramed(fbytes[s.file], s.size, offset, length)
 //@   ensures [C03,C08] reject: result1 == nil && !result0 ==> !(s.size > 44 && rootFramed(fbytes[s.file], s.size, offset, length))
 //@   ensures [C03] size-kept: s.size == old(s.size)
+//@   ensures [C19] at-most-one-read: io.reads <= old(io.reads) + 1
 //@   ensures [C07] failed-changes-nothing: !result0 ==> s.coll == old(s.coll)
 //@   ensures [C02] accepted-roots-installed: result0 ==> s.coll != nil
 //@   ensures [C19] reads-only-the-root: io.reads <= old(io.reads) + 1
@@ -277,10 +293,12 @@ package gkvlite
 //@   ensures [C08,C03] empty-only-if-asked: err == nil && s.size <= 0 ==> defaultToEmpty && s.size == 0
 //@   ensures [C03] none-found: err != nil && io.fails == old(io.fails) ==> forall p :: p <= old(s.size) ==> !validRootEndingAt(fbytes[s.file], p)
 //@   ensures [C09] never-grows: s.size <= max(old(s.size), 0)
+//@   ensures [C19] cost-depends-only-on-the-garbage-skipped: err == nil && s.size > 0 ==> io.reads <= old(io.reads) + 2 * (old(s.size) - s.size) + 2
 //@   ensures [C02] collections-stay-set: old(s.coll) != nil ==> s.coll != nil
 //@   loop 0 modifies s.size, s.coll, content(rootsEnd), ghost io.fails, ghost io.reads, ghost io.valbytes, ghost src
 //@   loop 0 invariant [C07] no-io-failure-so-far: io.fails == old(io.fails)
 //@   loop 0 invariant bounds: s.size <= max(old(s.size), 0) && s.coll == old(s.coll)
+//@   loop 0 invariant [C19] two-reads-per-position-so-far: io.reads <= old(io.reads) + 2 * (old(s.size) - s.size)
 //@   loop 0 invariant [C03,C08] none-above: forall p :: s.size < p && p <= old(s.size) ==> !validRootEndingAt(fbytes[s.file], p)
 //@   loop 0 decreases s.size
 
@@ -353,7 +371,8 @@ package gkvlite
 //@   ensures r == i
 
 //@ functype StoreCallbacks.KeyCompareForCollection(collName) (cmp)
-//@   ensures true
+//@   from: A9: the comparator chosen for a collection is a function of the callback and the name
+//@   ensures cmp == kcfc(self, collName)
 
 //@ func (*Store).ItemAlloc
 //@   props C17 C15
@@ -517,7 +536,7 @@ package gkvlite
 //@   ensures err != nil ==> true
 
 //@ func (*Store).writeRoots
-//@   props C14 C02 C03 C09 C07
+//@   props C14 C02 C03 C09 C07 C08
 //@   requires [C05,C18] nolocks: locks == emptyLocks()
 //@   from: C14 "root records framed by doubled magic markers carrying version, length and the JSON map"; C03 Q1 (one WriteAt, size advanced only on success); C09 W1
 //@   requires s != nil && s.file != nil && s.size >= 0
@@ -525,7 +544,7 @@ package gkvlite
 //@   modifies s.size, new mem.byte, ghost fbytes, ghost flen, ghost io.fails, ghost io.writes, ghost io.minoff
 //@   ensures [C07] E1: io.fails >= old(io.fails) && (io.fails > old(io.fails) ==> result != nil)
 //@   ensures [C07,C03] E3: result != nil ==> s.size == old(s.size)
-//@   ensures [C03] single-commit-write: io.writes <= old(io.writes) + 1 && (result == nil ==> io.writes == old(io.writes) + 1)
+//@   ensures [C03,C08] single-commit-write: io.writes <= old(io.writes) + 1 && (result == nil ==> io.writes == old(io.writes) + 1)
 //@   ensures [C02,C14,C03] grows: (result == nil ==> s.size >= old(s.size) + 46) && s.size >= old(s.size) && io.writes >= old(io.writes)
 //@   ensures [C14,C03] markers: result == nil ==> magicBegAt(fbytes[s.file], old(s.size)) && magicEndAt(fbytes[s.file], s.size)
 //@   ensures [C14,C02,C03] header: result == nil && s.size - old(s.size) < 4294967296 ==> magicBegAt(fbytes[s.file], old(s.size)) && fbe32(fbytes[s.file], old(s.size) + 12) == 4 && fbe32(fbytes[s.file], old(s.size) + 16) == s.size - old(s.size)
@@ -732,7 +751,7 @@ package gkvlite
 //@   ensures [C10,C04,C12] R3-superseded-recorded: result && prev != nil ==> prev.superseded
 //@   ensures !result ==> prev == nil || prev.superseded == old(prev.superseded)
 //@   ensures [C05,C04] swapped-iff-current: result == (old(t.root) == prev) && (result ==> t.root == next) && (!result ==> t.root == old(t.root))
-//@   ensures [C10] R4-chain: result && prev != nil && old(prev.refs) > 2 && prev != next ==> prev.chainedCollection == t && prev.chainedRootNodeLoc == next && next.refs == old(next.refs) + 1
+//@   ensures [C10,C04] R4-chain: result && prev != nil && old(prev.refs) > 2 && prev != next ==> prev.chainedCollection == t && prev.chainedRootNodeLoc == next && next.refs == old(next.refs) + 1
 //@   ensures [C10] R4-no-chain: result && (prev == nil || old(prev.refs) <= 2) ==> rootNodeLoc.refs == old(rootNodeLoc.refs) && rootNodeLoc.chainedRootNodeLoc == old(rootNodeLoc.chainedRootNodeLoc) && rootNodeLoc.chainedCollection == old(rootNodeLoc.chainedCollection)
 //@   ensures [C10] R4-only-these-change: (forall x {rootNodeLoc.refs[x]} :: x != next ==> rootNodeLoc.refs[x] == old(rootNodeLoc.refs[x])) && (forall x {rootNodeLoc.chainedCollection[x]} {rootNodeLoc.chainedRootNodeLoc[x]} :: x != prev ==> rootNodeLoc.chainedCollection[x] == old(rootNodeLoc.chainedCollection[x]) && rootNodeLoc.chainedRootNodeLoc[x] == old(rootNodeLoc.chainedRootNodeLoc[x])) && next.refs >= old(next.refs)
 //@   ensures [C05] failed-changes-nothing: !result ==> rootNodeLoc.refs == old(rootNodeLoc.refs) && rootNodeLoc.chainedRootNodeLoc == old(rootNodeLoc.chainedRootNodeLoc) && rootNodeLoc.chainedCollection == old(rootNodeLoc.chainedCollection)
@@ -905,7 +924,7 @@ package gkvlite
 //@   loop 0 decreases len(cnames) - rangeindex
 
 //@ func (*Store).Flush
-//@   props C02 C03 C04 C05 C07 C09 C12 C18
+//@   props C02 C03 C04 C05 C07 C09 C12 C18 C08
 //@   from: C03 "the root record is the last write of Flush" (single commit point); C09 W1; C04 "snapshots refuse ... Flush"; C07 E1; C05 L6 (versions are pinned in sorted name order before anything is written)
 //@   requires s != nil && locks == emptyLocks() && s.size >= 0
 //@   requires [C07] open-store: s.coll != nil && deref(s.coll) != nil
@@ -919,7 +938,7 @@ package gkvlite
 //@   ensures [C09,C03] writes-at-or-beyond-old-size: s.file != nil ==> io.minoff[s.file] >= min(old(io.minoff[s.file]), old(s.size))
 //@   ensures [C09,C03,C07] bytes-below-old-size-unchanged: s.file != nil ==> samePrefix(fbytes[s.file], old(fbytes[s.file]), old(s.size))
 //@   ensures [C09] other-files: forall f :: f != s.file ==> fbytes[f] == old(fbytes[f]) && flen[f] == old(flen[f]) && io.minoff[f] == old(io.minoff[f])
-//@   ensures [C03,C02,C14] commit-point-is-last: result == nil ==> magicEndAt(fbytes[s.file], s.size) && s.size >= old(s.size) + 46
+//@   ensures [C03,C02,C14,C08] commit-point-is-last: result == nil ==> magicEndAt(fbytes[s.file], s.size) && s.size >= old(s.size) + 46
 //@   loop 0 modifies rootNodeLoc.refs, mapcontent(rnls)
 //@   loop 0 invariant -1 <= rangeindex && rangeindex < len(cnames)
 //@   loop 0 invariant [C05] pinned-prefix: forall j in cnames :: j <= rangeindex ==> has(rnls, cnames[j]) && rnls[cnames[j]] != nil && rnls[cnames[j]] == coll[cnames[j]].root
@@ -940,6 +959,7 @@ package gkvlite
 //@   ensures [C03] empty-fbytes-opens-empty: result == nil && s.size <= 0 ==> flen[s.file] <= 0 && s.coll == old(s.coll)
 //@   ensures [C03] no-roots-error: result != nil && io.fails == old(io.fails) ==> forall p :: p <= flen[s.file] ==> !validRootEndingAt(fbytes[s.file], p)
 //@   ensures [C02] collections-stay-set: old(s.coll) != nil ==> s.coll != nil
+//@   ensures [C19] open-reads-only-the-root-record: result == nil && s.size > 0 ==> io.reads <= old(io.reads) + 2 * (flen[s.file] - s.size) + 2
 
 //@ func NewStore
 //@   inline
@@ -953,6 +973,7 @@ package gkvlite
 //@   ensures [C02,C03] opened: result1 == nil ==> result0 != nil && fresh(result0) && !result0.readOnly && result0.coll != nil
 //@   ensures [C02] memory-only: result1 == nil && file == nil ==> result0.file == nil && result0.size == 0
 //@   ensures [C03,C02] opens-at-the-greatest-valid-root: result1 == nil && result0.file != nil && result0.size > 0 ==> result0.file == file && validRootEndingAt(fbytes[file], result0.size) && (forall p :: result0.size < p && p <= flen[file] ==> !validRootEndingAt(fbytes[file], p))
+//@   ensures [C19] open-reads-only-the-root-record: result1 == nil && result0.file != nil && result0.size > 0 ==> io.reads <= old(io.reads) + 2 * (flen[file] - result0.size) + 2
 
 //@ func (*Store).FlushRevert
 //@   props C08 C04 C09 C07 C03
@@ -982,11 +1003,14 @@ package gkvlite
 //@   ensures [C04] read-only-copy: snapshot != nil && fresh(snapshot) && snapshot.readOnly && snapshot.file == s.file && snapshot.size == s.size && snapshot.coll != nil && fresh(deref(snapshot.coll))
 //@   ensures [C04] same-names: forall k :: has(deref(snapshot.coll), k) == has(deref(s.coll), k)
 //@   ensures [C04] same-version-objects: forall k :: has(deref(s.coll), k) ==> deref(snapshot.coll)[k] != nil && deref(snapshot.coll)[k].root == deref(s.coll)[k].root && deref(snapshot.coll)[k].rootLock == deref(s.coll)[k].rootLock
+//@   ensures [C04] every-version-pinned: (forall k :: has(deref(s.coll), k) ==> rootNodeLoc.refs[deref(s.coll)[k].root] >= old(rootNodeLoc.refs)[deref(s.coll)[k].root] + 1) && (forall r {rootNodeLoc.refs[r]} :: rootNodeLoc.refs[r] >= old(rootNodeLoc.refs[r]))
 //@   ensures [C04] original-handles-untouched: forall c: *Collection :: !fresh(c) ==> c.root == old(c.root) && c.store == old(c.store) && c.compare == old(c.compare)
 //@   ensures [C04] original-map-untouched: s.coll == old(s.coll) && map.ptr[deref(s.coll)] == old(map.ptr[deref(s.coll)]) && map.dom[deref(s.coll)] == old(map.dom[deref(s.coll)])
 //@   loop 0 modifies rootNodeLoc.refs, map.ptr, map.dom, new Collection.name, new Collection.store, new Collection.compare, new Collection.rootLock, new Collection.root, new Collection.AppData
 //@   loop 0 invariant -1 <= rangeindex
 //@   loop 0 invariant res != nil && fresh(res) && res.readOnly && res.file == s.file && res.size == s.size && res.coll != nil && deref(res.coll) == coll && fresh(coll) && coll != deref(s.coll)
+//@   loop 0 invariant [C04] pinned-so-far: (forall r {rootNodeLoc.refs[r]} :: rootNodeLoc.refs[r] >= old(rootNodeLoc.refs[r])) && (forall j in rangeslice :: j <= rangeindex ==> rootNodeLoc.refs[deref(s.coll)[rangeslice[j]].root] >= old(rootNodeLoc.refs)[deref(s.coll)[rangeslice[j]].root] + 1)
+//@   loop 0 invariant [C04] names-to-do: (forall i in rangeslice :: has(deref(s.coll), rangeslice[i])) && (forall k :: has(deref(s.coll), k) ==> exists i in rangeslice :: rangeslice[i] == k)
 //@   loop 0 invariant [C04] same-names-so-far: forall k :: has(coll, k) == has(deref(s.coll), k)
 //@   loop 0 invariant [C04] original-map-untouched: map.ptr[deref(s.coll)] == old(map.ptr[deref(s.coll)]) && map.dom[deref(s.coll)] == old(map.dom[deref(s.coll)])
 //@   loop 0 invariant handles-still-usable: forall k :: has(coll, k) ==> coll[k] != nil && coll[k].rootLock != nil && coll[k].root != nil && coll[k].root == deref(s.coll)[k].root && coll[k].rootLock == deref(s.coll)[k].rootLock
@@ -1142,7 +1166,7 @@ package gkvlite
 //@   ensures [C15] balanced: refcb(t.store) ==> forall j {net[j]} :: !fresh(j) ==> net[j] == old(net[j])
 
 //@ func (*Collection).SetItem
-//@   props C01 C13 C07 C10 C15 C19 C05 C04 C11
+//@   props C01 C13 C07 C10 C15 C19 C05 C04 C11 C17
 //@   from: C01 statement ("a lookup yields the last value and priority stored under the key", "Items with an empty or oversized (>65535 byte) key, a nil value or a negative priority are rejected with an error and change nothing"); C13 ("As long as no key is overwritten with a lower priority than it had, no child outranks its parent"); C07 ("failed calls change nothing")
 //@   requires [C05,C18] nolocks: locks == emptyLocks()
 //@   requires t != nil && t.store != nil && t.rootLock != nil && t.compare != nil && item != nil
@@ -1157,7 +1181,7 @@ package gkvlite
 //@   after (*Store).ItemAddRef.0 sets ias := upd(ias, ref(n.item), ia(item))
 //@   after (*Collection).mkNodeLoc.0 asserts [C13] new-node-is-well-formed: nodeInv(n)
 //@   ensures [C07] E1: io.fails >= old(io.fails) && (io.fails > old(io.fails) ==> err != nil)
-//@   ensures [C01] rejected-items-change-nothing: t.store.readOnly || item.Key == nil || len(item.Key) > 65535 || len(item.Key) == 0 || item.Val == nil || item.Priority < 0 ==> err != nil && t.root == old(t.root) && tvs == old(tvs) && ias == old(ias) && rootNodeLoc.refs == old(rootNodeLoc.refs) && rootNodeLoc.root == old(rootNodeLoc.root) && net == old(net)
+//@   ensures [C01,C17] rejected-items-change-nothing: t.store.readOnly || item.Key == nil || len(item.Key) > 65535 || len(item.Key) == 0 || item.Val == nil || item.Priority < 0 ==> err != nil && t.root == old(t.root) && tvs == old(tvs) && ias == old(ias) && rootNodeLoc.refs == old(rootNodeLoc.refs) && rootNodeLoc.root == old(rootNodeLoc.root) && net == old(net)
 //@   ensures [C01,C11] stored: err == nil ==> bst(tvs[t.root.root]) && (forall k {mem(k, tvs[t.root.root])} {mem(k, old(tvs)[old(t.root.root)])} :: mem(k, tvs[t.root.root]) == (mem(k, old(tvs)[old(t.root.root)]) || k == ord(item.Key))) && itemAt(ord(item.Key), tvs[t.root.root]) == ia(item) && (forall k {itemAt(k, tvs[t.root.root])} :: k != ord(item.Key) && mem(k, old(tvs)[old(t.root.root)]) ==> itemAt(k, tvs[t.root.root]) == itemAt(k, old(tvs)[old(t.root.root)]))
 //@   ensures [C13] heap-order-kept: err == nil && hp(old(tvs)[old(t.root.root)]) && (mem(ord(item.Key), old(tvs)[old(t.root.root)]) ==> ipri(itemAt(ord(item.Key), old(tvs)[old(t.root.root)])) <= item.Priority) ==> hp(tvs[t.root.root])
 //@   ensures [C04,C13] new-version-is-well-formed: err == nil ==> t.root != nil && t.root.refs >= 1 && t.root.root != nil && t.root.next == nil && t.root.chainedCollection == nil && t.root.chainedRootNodeLoc == nil
@@ -1417,6 +1441,7 @@ package gkvlite
 //@   relies [C04] current-version-is-live: t.root.refs >= 1 && t.root.root != nil && t.root.next == nil
 //@   relies [C13] published-root-is-a-search-tree: bst(tvs[t.root.root])
 //@   modifies rootNodeLoc.refs, rootNodeLoc.root, rootNodeLoc.next, rootNodeLoc.chainedCollection, rootNodeLoc.chainedRootNodeLoc, node.numNodes, node.numBytes, node.next, itemLoc.loc, itemLoc.item, nodeLoc.loc, nodeLoc.node, nodeLoc.next, mem.ptr, G.freeNodes, G.freeNodeLocs, G.freeRootNodeLocs, AllocStats.CurFreeNodes, AllocStats.FreeNodes, AllocStats.CurFreeNodeLocs, AllocStats.FreeNodeLocs, AllocStats.CurFreeRootNodeLocs, AllocStats.FreeRootNodeLocs, ghost net, ghost tvs, t.store.nodeAllocs, new ploc.Offset, new ploc.Length, new node.numNodes, new node.numBytes, new node.next, new itemLoc.loc, new itemLoc.item, new nodeLoc.loc, new nodeLoc.node, new nodeLoc.next, new Item.Key, new Item.Val, new Item.Priority, new Item.Transient, new mem.byte, ghost io.fails, ghost io.reads, ghost io.valbytes, ghost src, cell.Int, ghost orphans, ghost vis.n, ghost vis.key, ghost vis.item, ghost vis.depth, ghost vis.hasval, ghost vis.stop
+//@   after (*Store).visitNodes.0 asserts [C05,C04,C18] version-stays-pinned-during-the-visit: rnl == old(t.root) && rnl.refs == old(t.root.refs) + 1
 //@   ensures [C07] E1: io.fails >= old(io.fails) && (io.fails > old(io.fails) ==> result != nil)
 //@   ensures [C06] log-only-grows: vis.n >= old(vis.n) && (forall idx {vis.key[idx]} {vis.item[idx]} {vis.hasval[idx]} {old(vis.key)[idx]} {old(vis.item)[idx]} {old(vis.hasval)[idx]} :: idx < old(vis.n) ==> vis.key[idx] == old(vis.key)[idx] && vis.item[idx] == old(vis.item)[idx] && vis.hasval[idx] == old(vis.hasval)[idx])
 //@   ensures [C06,C11] delivered-items-are-the-collections: forall idx {vis.key[idx]} {vis.item[idx]} {vis.depth[idx]} {vis.hasval[idx]} :: old(vis.n) <= idx && idx < vis.n ==> mem(vis.key[idx], old(tvs)[old(t.root.root)]) && vis.item[idx] == itemAt(vis.key[idx], old(tvs)[old(t.root.root)]) && vis.key[idx] >= ord(target) && vis.depth[idx] == depthIn(vis.key[idx], old(tvs)[old(t.root.root)]) && (withValue ==> vis.hasval[idx])
@@ -1436,6 +1461,7 @@ package gkvlite
 //@   relies [C04] current-version-is-live: t.root.refs >= 1 && t.root.root != nil && t.root.next == nil
 //@   relies [C13] published-root-is-a-search-tree: bst(tvs[t.root.root])
 //@   modifies rootNodeLoc.refs, rootNodeLoc.root, rootNodeLoc.next, rootNodeLoc.chainedCollection, rootNodeLoc.chainedRootNodeLoc, node.numNodes, node.numBytes, node.next, itemLoc.loc, itemLoc.item, nodeLoc.loc, nodeLoc.node, nodeLoc.next, mem.ptr, G.freeNodes, G.freeNodeLocs, G.freeRootNodeLocs, AllocStats.CurFreeNodes, AllocStats.FreeNodes, AllocStats.CurFreeNodeLocs, AllocStats.FreeNodeLocs, AllocStats.CurFreeRootNodeLocs, AllocStats.FreeRootNodeLocs, ghost net, ghost tvs, t.store.nodeAllocs, new ploc.Offset, new ploc.Length, new node.numNodes, new node.numBytes, new node.next, new itemLoc.loc, new itemLoc.item, new nodeLoc.loc, new nodeLoc.node, new nodeLoc.next, new Item.Key, new Item.Val, new Item.Priority, new Item.Transient, new mem.byte, ghost io.fails, ghost io.reads, ghost io.valbytes, ghost src, cell.Int, ghost orphans, ghost vis.n, ghost vis.key, ghost vis.item, ghost vis.depth, ghost vis.hasval, ghost vis.stop
+//@   after (*Store).visitNodes.0 asserts [C05,C04,C18] version-stays-pinned-during-the-visit: rnl == old(t.root) && rnl.refs == old(t.root.refs) + 1
 //@   ensures [C07] E1: io.fails >= old(io.fails) && (io.fails > old(io.fails) ==> result != nil)
 //@   ensures [C06] log-only-grows: vis.n >= old(vis.n) && (forall idx {vis.key[idx]} {vis.item[idx]} {vis.hasval[idx]} {old(vis.key)[idx]} {old(vis.item)[idx]} {old(vis.hasval)[idx]} :: idx < old(vis.n) ==> vis.key[idx] == old(vis.key)[idx] && vis.item[idx] == old(vis.item)[idx] && vis.hasval[idx] == old(vis.hasval)[idx])
 //@   ensures [C06] delivered-items-are-the-collections: forall idx {vis.key[idx]} {vis.item[idx]} {vis.depth[idx]} {vis.hasval[idx]} :: old(vis.n) <= idx && idx < vis.n ==> mem(vis.key[idx], old(tvs)[old(t.root.root)]) && vis.item[idx] == itemAt(vis.key[idx], old(tvs)[old(t.root.root)]) && vis.key[idx] < ord(target) && vis.depth[idx] == depthIn(vis.key[idx], old(tvs)[old(t.root.root)]) && (withValue ==> vis.hasval[idx])
@@ -1533,7 +1559,7 @@ package gkvlite
 // by the bounded harness (its visitor is not neutral: it is the copy), see DESIGN section 9.
 
 //@ func (*Collection).EvictSomeItems$1
-//@   props C15 C11 C01
+//@   props C15 C11 C01 C09
 //@   from: handed to walk as its chooser (walkDir 2), so it must satisfy the walk.cfn contract: it evicts only persisted items, releases what it evicts, and never returns an empty child
 //@   requires n != nil && locks == emptyLocks() && t != nil && numEvicted != nil && deref(t) != nil && deref(t).store != nil
 //@   relies [C15] slot-holds-ref: n.item.item != nil && refcb(deref(t).store) ==> net[n.item.item] >= 1
@@ -1544,7 +1570,7 @@ package gkvlite
 //@   ensures [C15] releases-what-it-evicts: orphans == old(orphans)
 
 //@ func (*Collection).EvictSomeItems
-//@   props C15 C11 C01 C04 C19 C07
+//@   props C15 C11 C01 C04 C19 C07 C09
 //@   from: C01/C11 (eviction never changes what a collection contains: no version and no slot denotation changes), C04 (read-only stores evict nothing), C15 (an evicted item's reference is released)
 //@   requires [C05,C18] nolocks: locks == emptyLocks()
 //@   requires t != nil && t.store != nil && t.rootLock != nil
@@ -1554,3 +1580,15 @@ package gkvlite
 //@   ensures [C01,C11] eviction-changes-no-contents: t.root == old(t.root) && rootNodeLoc.root == old(rootNodeLoc.root) && rootNodeLoc.refs == old(rootNodeLoc.refs) && tvs == old(tvs) && ias == old(ias)
 //@   ensures [C15] releases-what-it-evicts: orphans == old(orphans)
 //@   ensures [C19] no-value-bytes: io.valbytes == old(io.valbytes)
+
+// ---------------------------------------------------------------------------
+// the package initialiser establishes the constants that the `global` clauses above let every other
+// function assume
+
+//@ func init
+//@   props C03 C02 C14 C12 C08
+//@   from: the `global` clauses of this file (root record geometry, magic markers, sentinels) are postconditions of the package initialiser
+//@   modifies G.rootsEndLen, G.rootsLen, G.MagicBeg, G.MagicEnd, G.plocEmpty, new mem.byte, new ploc.Offset, new ploc.Length
+//@   ensures [C03,C02,C14,C12] root-record-geometry: rootsEndLen == 24 && rootsLen == 44
+//@   ensures [C14,C03] magic-markers: len(MagicBeg) == 6 && MagicBeg[0] == 48 && MagicBeg[1] == 103 && MagicBeg[2] == 49 && MagicBeg[3] == 116 && MagicBeg[4] == 50 && MagicBeg[5] == 114 && len(MagicEnd) == 6 && MagicEnd[0] == 51 && MagicEnd[1] == 101 && MagicEnd[2] == 52 && MagicEnd[3] == 97 && MagicEnd[4] == 53 && MagicEnd[5] == 112
+//@   ensures [C14] empty-location: plocEmpty != nil && plocEmpty.Offset == 0 && plocEmpty.Length == 0
